@@ -32,6 +32,7 @@ from gv.astutil import stmts_of
 from gv.astutil import walk_body
 from gv.cfg import cfg_of
 from gv.props.shared import branch_conditions
+from gv.props.shared import conj_literals
 from gv.index import ClassInfo
 from gv.props import describe
 from gv.report import Ctx
@@ -134,7 +135,9 @@ def _entries_of(ctx: Ctx, cls: ClassInfo, value: ast.AST, depth: int) -> set[str
         if len(value.args) == 1:
             return _entries_of(ctx, cls, value.args[0], depth)
     if isinstance(value, ast.Call) and isinstance(value.func, ast.Attribute) and value.func.attr == "union" and not value.keywords:
-        out = _entries_of(ctx, cls, value.func.value, depth)
+        # bound (``a.union(b, ...)``) or through the type (``set.union(a, b, ...)``): the union of all the operands
+        unbound = dotted(value.func.value) in ("set", "frozenset") and bool(value.args)
+        out = set() if unbound else _entries_of(ctx, cls, value.func.value, depth)
         for a in value.args:
             out |= _entries_of(ctx, cls, a, depth)
         return out
@@ -239,6 +242,37 @@ def _must_call(f: ast.FunctionDef, method: str) -> bool:
     return bool(nodes) and cfg.escape_path(cfg.entry, nodes) is None
 
 
+def _runs_body(f: ast.FunctionDef, g: ast.FunctionDef) -> bool:
+    """Every normal path through ``f`` executes the statements of the parameterless procedure ``g`` (its call replaced
+    by its body): they stand, in order and next to each other, in one block of ``f`` that every path enters."""
+    if [p for p in param_names(g) if p != "self"] or any(isinstance(n, (ast.Return, ast.Yield, ast.YieldFrom, ast.Await)) for n in walk_body(g)):
+        return False
+    body = [ast.dump(s) for s in g.body if not (isinstance(s, ast.Expr) and isinstance(s.value, ast.Constant)) and not isinstance(s, ast.Pass)]
+    if not body:
+        return False
+    cfg = cfg_of(f)
+    for holder in [f, *stmts_of(f)]:
+        for field in ("body", "orelse", "finalbody"):
+            block = getattr(holder, field, None)
+            if not isinstance(block, list):
+                continue
+            dumps = [ast.dump(s) for s in block]
+            for i in range(len(block) - len(body) + 1):
+                if dumps[i : i + len(body)] == body and cfg.has(block[i]) and cfg.escape_path(cfg.entry, {cfg.node_of(block[i])}) is None:
+                    return True
+    return False
+
+
+def _must_run(ctx: Ctx, cls: ClassInfo, owner: ClassInfo, f: ast.FunctionDef, method: str, by: ClassInfo) -> bool:
+    """``f`` (a method of ``owner``) calls ``self.<method>()`` (as named in the class ``by``) on every path, or executes
+    its body itself."""
+    if _must_call(f, method):
+        return True
+    found = ctx.index.resolve_method(cls, mangle(by.name, method)) or ctx.index.resolve_method(cls, method)
+    # private names in the body denote the attributes of the class that spells them
+    return found is not None and found[0] == owner and _runs_body(f, found[1])
+
+
 def _restore_functions(ctx: Ctx, cls: ClassInfo):
     out = []
     for m in ("__setstate__", *HOOKS):
@@ -268,7 +302,17 @@ def check_exclusions(ctx: Ctx) -> None:
             if e in writes:
                 n_eff += 1
                 if cls.key in CONDITIONAL_REBUILD:
-                    ok = any(m in ("__setstate__", *HOOKS) or True for _, m, _ in writes[e])
+                    # reached from the restore or from the run: __setstate__ / _run or a method they call on self
+                    reach, todo = set(), ["__setstate__", "_run", *HOOKS]
+                    while todo:
+                        m_ = todo.pop()
+                        fm = idx.resolve_method(cls, mangle(cls.name, m_)) or idx.resolve_method(cls, m_)
+                        if m_ in reach or fm is None:
+                            continue
+                        reach.add(m_)
+                        todo += [c_.func.attr for c_ in walk_body(fm[1]) if isinstance(c_, ast.Call) and isinstance(c_.func, ast.Attribute) and dotted(c_.func.value) == "self"]
+                    unm = lambda m_: m_.split("__", 1)[1].join(["__", ""]) if m_.startswith("_" + cls.name + "__") else m_  # noqa: E731
+                    ok = any(unm(m) in reach or m in reach for _, m, _ in writes[e])
                     ctx.ob("20.1-rebuild", con, ok, f"{e} is excluded and never assigned again", node=cls.node, stmt=f"excluded attribute {e} is re-created (conditionally, see CONDITIONAL_REBUILD)")
                     continue
                 ok = any(_must_assign(ctx, cls, owner, f, e) for _, owner, f in _restore_functions(ctx, cls))
@@ -294,7 +338,7 @@ def check_exclusions(ctx: Ctx) -> None:
                         name = c.func.attr
                         if name in HOOKS:
                             continue  # run by the base protocol (20.3-base, 20.1-super)
-                        okb = any(_must_call(f, name) for _, owner, f in _restore_functions(ctx, cls) if owner != idx.cls(SER, "Serializable"))
+                        okb = any(_must_run(ctx, cls, owner, f, name, init[0]) for _, owner, f in _restore_functions(ctx, cls) if owner != idx.cls(SER, "Serializable"))
                         ctx.ob("20.1-rebuild", con, okb, f"the constructor fills `{e}` through self.{name}(); the restore of {cls.name} does not call it on every path, so the restored attribute is not what a fresh object holds", node=c, stmt=f"restore calls the builder {name} of {e}")
                 # re-created by the same constructor call as in __init__, from the stored values of the same arguments
                 _same_construction(ctx, cls, e, con)
@@ -515,7 +559,7 @@ def check_primitives(ctx: Ctx) -> None:
             elif idx.is_subclass(s_cls, ser):
                 excluded = stored in _entries(ctx, s_cls)[0]
                 if rec["kind"] == "synchronized":
-                    ok = in_hook or (excluded and in_hook)
+                    ok = in_hook
                     if BEFORE in rec["methods"]:
                         # a counter created by the before-hook is meant to travel by value: excluding it loses the value
                         ctx.ob("20.2-by-value", con, not excluded, f"the counter `{stored}` is created by {BEFORE} (so that Serializable restores its value) but it is also excluded from the state: the restored object starts from the initial value, counters and statistics do not carry over", node=rec["stmt"], stmt=f"counter {stored} travels by value")
@@ -1129,6 +1173,29 @@ def check_pickle_helpers(ctx: Ctx) -> None:
         opens = [c for c in walk_body(fn) if isinstance(c, ast.Call) and _open_mode(c) is not None]
         withs = [w for w in stmts_of(fn) if isinstance(w, ast.With)]
         ok = len(opens) == 1 and getattr(_open_mode(opens[0])[0], "value", None) == mode and len(withs) == 1 and opens[0] in [i.context_expr for i in withs[0].items]
+        # the whole-file spelling: <path>.read_bytes() / <path>.write_bytes(..) open in binary mode and close by themselves
+        whole = [c for c in walk_body(fn) if isinstance(c, ast.Call) and isinstance(c.func, ast.Attribute) and c.func.attr == ("write_bytes" if meth == "dump" else "read_bytes") and len(c.args) == (1 if meth == "dump" else 0) and not c.keywords]
+        if not opens and not withs and len(whole) == 1:
+            ctx.ob("20.6-helpers", con, True, "", node=whole[0], stmt=f"file opened '{mode}' in a with statement")
+            conv = [c for c in walk_body(fn) if isinstance(c, ast.Call) and from_pickle_module(c.func, meth + "s")]
+            other = [c for c in walk_body(fn) if isinstance(c, ast.Call) and (from_pickle_module(c.func, meth) or from_pickle_module(c.func, cls_) or (isinstance(c.func, ast.Attribute) and c.func.attr == meth))]
+            ok = len(conv) == 1 and not other
+            if ok and meth == "dump":
+                # the bytes written are the pickled first parameter
+                written = unfolded(fn, whole[0].args[0]) or []
+                ok = len(written) == 1 and [norm_stmt(x) for x in unfolded(fn, conv[0]) or []] == [norm_stmt(written[0])] and dotted(arg_or_kw(conv[0], 0, "obj")) == param_names(fn)[0]
+            if ok and meth == "load":
+                # the bytes read are unpickled and the result is what is returned
+                data = unfolded(fn, arg_or_kw(conv[0], 0, "data")) if arg_or_kw(conv[0], 0, "data") is not None else None
+                ok = data is not None and len(data) == 1 and [norm_stmt(x) for x in unfolded(fn, whole[0]) or []] == [norm_stmt(data[0])]
+                rets = [s for s in stmts_of(fn) if isinstance(s, ast.Return) and s.value is not None]
+                ok = ok and len(rets) == 1
+                if ok:
+                    alts = unfolded(fn, rets[0].value) or []
+                    loaded = [norm_stmt(x) for x in unfolded(fn, conv[0]) or []]
+                    ok = bool(alts) and len(loaded) == 1 and all(loaded[0] in norm_stmt(a) for a in alts)
+            ctx.ob("20.6-helpers", con, bool(ok), f"{fn.name} must {meth} the object with pickle's {cls_} (or pickle.{meth}) on the opened file", node=(conv or [fn])[0], stmt=f"{cls_}.{meth}")
+            continue
         ctx.ob("20.6-helpers", con, bool(ok), f"{fn.name} must open the file in mode '{mode}' inside a with statement", node=(opens or [fn])[0], stmt=f"file opened '{mode}' in a with statement")
         stream = None
         if ok:
@@ -1161,6 +1228,30 @@ def check_pickle_helpers(ctx: Ctx) -> None:
         ctx.ob("20.6-helpers", con, bool(ok), f"{fn.name} must {meth} the object with pickle's {cls_} (or pickle.{meth}) on the opened file", node=(calls or direct or [fn])[0], stmt=f"{cls_}.{meth}")
 
 
+_MARKER = "__internal__"
+
+
+def _sets_marker(s: ast.stmt, holder: str) -> bool:
+    """``<holder>.__internal__ = v`` or ``setattr(<holder>, "__internal__", v)``."""
+    if isinstance(s, (ast.Assign, ast.AnnAssign)) and s.value is not None:
+        return any(norm_stmt(t) == f"{holder}.{_MARKER}" for t in (s.targets if isinstance(s, ast.Assign) else [s.target]))
+    if isinstance(s, ast.Expr) and isinstance(s.value, ast.Call) and dotted(s.value.func) == "setattr" and len(s.value.args) == 3 and not s.value.keywords:
+        return norm_stmt(s.value.args[0]) == holder and const_value(s.value.args[1]) == _MARKER
+    return False
+
+
+def _has_marker_test(func: ast.AST, e: ast.AST, subjects: set[str]) -> bool:
+    """``hasattr(<one of subjects, possibly through a local>, "__internal__")``."""
+    from gv.props.shared import unfolded
+
+    if not (isinstance(e, ast.Call) and dotted(e.func) == "hasattr" and len(e.args) == 2 and not e.keywords and const_value(e.args[1]) == _MARKER):
+        return False
+    if norm_stmt(e.args[0]) in subjects:
+        return True
+    alts = {norm_stmt(x) for x in unfolded(func, e.args[0]) or [e.args[0]]}
+    return bool(alts) and alts <= subjects
+
+
 def check_runtime_models(ctx: Ctx) -> None:
     """20.8: a pydantic model created at run time (create_model) cannot be pickled by reference: PydanticGrammar pickles
     the FIELDS of the models that carry the `__internal__` marker instead.  Every site that installs a run-time model must
@@ -1175,17 +1266,26 @@ def check_runtime_models(ctx: Ctx) -> None:
                 continue
             n += 1
             holder = norm_stmt(st.targets[0])
-            marks = [s_ for s_ in stmts_of(m) if isinstance(s_, ast.Assign) and norm_stmt(s_.targets[0]) == f"{holder}.__internal__"]
+            marks = [s_ for s_ in stmts_of(m) if _sets_marker(s_, holder)]
             base = kwarg(st.value, "__base__")
             sn = cfg.node_of(st)
             ok = False
             for mk in marks:
                 mn = cfg.node_of(mk)
-                conds = [(norm_stmt(cfg.ast[t].test), v) for t, v in branch_conditions(cfg, mn) if cfg.kind[t] == "test"]
-                if not conds and cfg.escape_path(sn, {mn}) is None:
+                tests = [(t, v) for t, v in branch_conditions(cfg, mn) if cfg.kind[t] == "test"]
+                if not tests and cfg.escape_path(sn, {mn}) is None:
                     ok = True  # marked unconditionally
-                elif base is not None and len(conds) == 1 and conds[0] in ((f"hasattr({norm_stmt(base)}, '__internal__')", False), (f"not hasattr({norm_stmt(base)}, '__internal__')", True)):
-                    ok = True  # marked when the base does not carry the marker (inherited otherwise)
+                elif len(tests) == 1:
+                    # marked when the marker is absent: looked up on the base (the derived model inherits it otherwise)
+                    # or, once the model is created, on the model itself (the lookup goes through its bases); the only
+                    # way round the mark is the other outcome of that test
+                    t, v = tests[0]
+                    subjects = ({norm_stmt(base)} if base is not None else set()) | ({holder} if cfg.dominates(sn, t) else set())
+                    lits = conj_literals(cfg.ast[t].test)
+                    absent = len(lits) == 1 and _has_marker_test(m, lits[0][1], subjects) and (lits[0][0] if v else not lits[0][0]) is False
+                    other = cfg.branch.get((t, not v))
+                    if absent and cfg.path(sn, cfg.exit, avoid={mn} | ({other} if other is not None else set())) is None:
+                        ok = True
             ctx.ob("20.8-runtime-model", cname(rel, "PydanticGrammar", mname), ok, f"{mname} installs a model created at run time without the `__internal__` marker (set unconditionally, or when its base lacks it): __getstate__ then leaves the class itself in the state and pickle fails (the class cannot be imported), or, unpickled in the same process, shares the class with the original", node=st, stmt="run-time model carries the pickling marker")
     ctx.floor("20.8-runtime-model", 2)
     gs = cls.methods.get("__getstate__")
